@@ -150,14 +150,13 @@ impl StreamHeader {
 //@ subst `async fn` => `fn`
 //@ subst `R: AsyncRead + Unpin + ?Sized,` => `R: AsyncReader,`
 //@ subst `use crate::bytes::BytesReaderAsync;` => ``
-//@ subst `.await` => `` x2
 //@ rename `bytes::IoReadError` => `BytesIoReadError`
 //@ rename `IoReadError::Parse` => `HeaderIoReadError::Parse`
 //@ rename `Result<Self, IoReadError>` => `Result<Self, HeaderIoReadError>`
 //@ rename `ParseError::` => `HeaderParseError::`
-//@ substw `|e| match e { BytesIoReadError::ImmediateFin => BytesIoReadError::UnexpectedFin, _ => e, }` => `|e: BytesIoReadError| -> (o: BytesIoReadError) ensures o == fin_remap(e) { match e { BytesIoReadError::ImmediateFin => BytesIoReadError::UnexpectedFin, _ => e, } }`
-//@ subst `reader.get_varint()?;` => `reader.get_varint().map_err(|e: BytesIoReadError| -> (o: HeaderIoReadError) ensures o == HeaderIoReadError::IO(e) { header_io_read_error_from(e) })?;`
-//@ subst `})?)` => `}).map_err(|e: BytesIoReadError| -> (o: HeaderIoReadError) ensures o == HeaderIoReadError::IO(e) { header_io_read_error_from(e) })?)`
+//@ resub `\|e\|\s*match e\s*\{\s*BytesIoReadError::ImmediateFin\s*=>\s*BytesIoReadError::UnexpectedFin,\s*_\s*=>\s*e,\s*\}\)\?` => `|e: BytesIoReadError| -> (o: BytesIoReadError) ensures o == fin_remap(e) { match e { BytesIoReadError::ImmediateFin => BytesIoReadError::UnexpectedFin, _ => e, } }).map_err(|e: BytesIoReadError| -> (o: HeaderIoReadError) ensures o == HeaderIoReadError::IO(e) { header_io_read_error_from(e) })?`
+//@ resub `\s*\.await\?` => `.map_err(|e: BytesIoReadError| -> (o: HeaderIoReadError) ensures o == HeaderIoReadError::IO(e) { header_io_read_error_from(e) })?`
+//@ resub `\s*\.await\b` => ``
 //@ subst `|InvalidSessionId| HeaderIoReadError::Parse(HeaderParseError::InvalidSessionId)` => `|_e: InvalidSessionId| -> (o: HeaderIoReadError) ensures o == HeaderIoReadError::Parse(HeaderParseError::InvalidSessionId) { HeaderIoReadError::Parse(HeaderParseError::InvalidSessionId) }`
 //@ prologue let ghost s0 = reader.remaining();
 //@ insert_before `Ok(Self::new(kind, session_id))` => `proof { if varint_complete(s0) && varint_complete(s0.skip(varint_len_from_first(s0[0]))) { lemma_skip_skip(s0, varint_len_from_first(s0[0]), varint_len_from_first(s0.skip(varint_len_from_first(s0[0]))[0])); } }`
